@@ -462,9 +462,12 @@ TRUSTED = [
 PROVED = ["coq/props/Prop_C19.v: su2 step/run norm identity; exact norm product formulas for abrm (incl. rewinder) and abrm_nd with the "
           "epsilon regulariser, bounds prod rho^2 <= norm <= 1 and exact unitarity at eps = 0; exact unitarity of abrm_hp, blochsim, abrm_ptx "
           "for any input; zero RF => b = 0 (abrm, abrm_nd, abrm_hp, blochsim; |a| = 1 for the last two); composition = ordered SU(2) product "
-          "(generic, abrm_nd); partial: abrm_hp/blochsim composition (loop level), ab2rf inversion (on rotation parameters (c_j, s_j))"]
+          "(generic, abrm_nd, and the whole functions abrm_hp / blochsim incl. the closing total-phase factor / abrm_ptx); abrm_ptx zero RF => b = 0; "
+          "ab2rf inverts the forward hard-pulse recursion on the RF samples themselves (|theta_j| < pi; atan2 / angle defined from atan, "
+          "C19_arctan2_inverts_polar, C19_exp_angle_is_unit_phasor, C19_ab2rf_last_line(_converse), C19_ab2rf_inverts); hard-pulse simulation of "
+          "the designed pulse evaluates the forward SLR polynomials (C19_abrm_hp_evaluates_forward_slr, C19_slr_inverted_by_hard_pulse_simulation); "
+          "the earlier *_partial statements are kept beside the full ones"]
 VALIDATED = ["b2a / mag2mp (log/FFT/exp minimum-phase alpha) — numerical, validated only through the |B| round trip (1e-6)",
-             "rf_j = 2*atan2(|s_j|, c_j)*exp(1j*angle(s_j)) <-> (c_j, s_j): validated numerically (the theorem is stated on (c_j, s_j))",
-             "composition for abrm_hp / blochsim / abrm_ptx as whole functions: numerically (the proved composition is for the SU(2) runs "
-             "abrm_nd / abrm loop / generic ordered product)",
-             "abrm_ptx zero pulse => b = 0: numerically only"]
+             "SLR realisability: that an arbitrary admissible (A, B) IS the forward recursion of some hard-pulse train is not proved (ab2rf is proved "
+             "to invert the forward recursion; the |B| round trip validates the rest numerically)",
+             "abrm: its rewinder gradient depends on the waveform length, so composition is proved for the sample loop, not for the whole function"]
